@@ -84,8 +84,8 @@ theorem max_refines (t : Tree K V) : max t = (abs t).getLast? := by
       cases h' : abs r with
       | nil => exact absurd h' this
       | cons a as =>
-        simp only [Bool.false_eq_true, if_false, ihr, h']
-        rw [List.getLast?_append_of_ne_nil _ (by simp), List.getLast?_cons_cons]
+        rw [ihr, h']
+        simp [List.getLast?_append, List.getLast?_cons_cons, List.getLast?_cons]
     · have : abs r = [] := (isEmpty_iff r).1 hr
       simp [this]
 
